@@ -269,9 +269,16 @@ def gen_spec(g):
             T[i][i] = -sum(T[i][j] for j in range(i + 1, n))
         if all(T[i][i] == 0 for i in range(n)):
             T[0][1], T[0][0] = 1.5, -1.5
-    perm = list(range(n))
+    rot = []
+    if g.chance(0.3):
+        # scaled rotation blocks s*[[3/5, -4/5], [4/5, 3/5]] on the diagonal: complex eigenvalues s*(3 +- 4i)/5 of modulus
+        # exactly |s| (C19_rotation_block_*, C19_block_diag_charpoly)
+        rot = [g.choice([-1, 1]) * g.choice([0.5, 1.25, 2.0, 3.5]) for _ in range(g.randint(1, 2))]
+        if g.chance(0.5):
+            rot[0] = g.choice([-1, 1]) * (max(abs(d) for d in diag) + 1.5)      # the dominant pair is complex
+    perm = list(range(n + 2 * len(rot)))
     g.shuffle(perm)
-    return {"kind": "spec", "n": n, "T": T, "perm": perm, "fmt": g.choice(["dense", "csr", "csc"]), "zero_rows": zero_rows,
+    return {"kind": "spec", "n": n, "T": T, "perm": perm, "rot": rot, "fmt": g.choice(["dense", "csr", "csc"]), "zero_rows": zero_rows,
             "lr": g.choice([1.0, 0.5, 0.25, 0.75, 0.125])}
 
 
@@ -279,10 +286,17 @@ def build_spec(c):
     from scipy import sparse
     n = c["n"]
     T = np.array(c["T"], dtype=float)
-    P = np.zeros((n, n))
+    rot = c.get("rot") or []
+    N = n + 2 * len(rot)
+    B = np.zeros((N, N))
+    B[:n, :n] = T
+    for k, sc in enumerate(rot):
+        i = n + 2 * k
+        B[i:i + 2, i:i + 2] = sc * np.array([[0.6, -0.8], [0.8, 0.6]])
+    P = np.zeros((N, N))
     for i, p in enumerate(c["perm"]):
         P[i, p] = 1.0
-    W = P @ T @ P.T
+    W = P @ B @ P.T
     if c["fmt"] == "csr":
         return sparse.csr_matrix(W), W
     if c["fmt"] == "csc":
@@ -315,10 +329,17 @@ def check_spec(ctx, c, o, mos):
     eff = Fraction(eff_m[1])
     r = o[1]
     problems = []
+    if c.get("rot"):
+        # effective matrix lr*B + (1-lr)*I of a rotation block: eigenvalues lr*s*(3 +- 4i)/5 + 1 - lr, compared by squares
+        lr = Fraction(c["lr"])
+        sq = [eff * eff] + [(lr * Fraction(sc) * Fraction(3, 5) + 1 - lr) ** 2 + (lr * Fraction(sc) * Fraction(4, 5)) ** 2 for sc in c["rot"]]
+        if not common.close(r["eff"] ** 2, max(sq), 1e-6):
+            problems.append(f"effective_spectral_radius={r['eff']!r} but the largest eigenvalue modulus of lr*W+(1-lr)*I is {float(max(sq)) ** 0.5!r}")
+        eff = None
     for k in ("sr", "sr_dense", "sr_csr"):
         if not common.close(r[k], rho, 1e-6):
             problems.append(f"{k}={r[k]!r} but the largest eigenvalue modulus is {float(rho)!r}")
-    if not common.close(r["eff"], eff, 1e-6):
+    if eff is not None and not common.close(r["eff"], eff, 1e-6):
         problems.append(f"effective_spectral_radius={r['eff']!r} but rho(lr*W+(1-lr)*I)={float(eff)!r}")
     # the model's effective matrix must be the conjugated triangular one: check via numpy on the exact entries
     if problems:
@@ -338,11 +359,12 @@ def check_cases(ctx, cases):
             diag = [c["T"][i][i] for i in range(c["n"])]
             lr = c["lr"]
             slots.append((len(mcases), 3))
-            mcases.append({"kind": "rho_diag", "regime": "E", "d": [q(d) for d in diag]})
+            # (the moduli of the rotation blocks' eigenvalues are their scales)
+            mcases.append({"kind": "rho_diag", "regime": "E", "d": [q(d) for d in diag] + [q(abs(sc)) for sc in (c.get("rot") or [])]})
             mcases.append({"kind": "rho_diag", "regime": "E",
                            "d": [q(Fraction(lr) * Fraction(d) + 1 - Fraction(lr)) for d in diag]})
             _, W = build_spec(c)
-            mcases.append({"kind": "eff_matrix", "regime": "E", "n": c["n"], "W": qmat(W.tolist()), "lr": q(lr)})
+            mcases.append({"kind": "eff_matrix", "regime": "E", "n": W.shape[0], "W": qmat(W.tolist()), "lr": q(lr)})
     outs = ctx.model.batch(mcases)
     for c, o, (i0, k) in zip(cases, obs, slots):
         if c["kind"] == "metric":
@@ -353,11 +375,11 @@ def check_cases(ctx, cases):
             check_metric(ctx, c, o, outs[i0])
         else:
             ctx.count(c, nontrivial=True, obligation="spectral_radius")
-            ctx.stat(f"spec fmt={c['fmt']} n={c['n']}")
+            ctx.stat(f"spec fmt={c['fmt']} n={c['n']} rot={len(c.get('rot') or [])}")
             ctx.sample({k_: c[k_] for k_ in ("n", "fmt", "lr", "perm")} | {"diag": [c["T"][i][i] for i in range(c["n"])]})
             # effective matrix produced by the model must have, after undoing the permutation, the predicted diagonal
             effm = outs[i0 + 2]
-            if effm[0] == "ok":
+            if effm[0] == "ok" and not c.get("rot"):
                 M = np.array([[float(Fraction(v)) for v in row] for row in effm[1]])
                 P = np.zeros((c["n"], c["n"]))
                 for i, p in enumerate(c["perm"]):
